@@ -23,7 +23,6 @@ KEYS = {
     "inject-defaults-index-drift": lambda c: "(arr" in c,
     "inject-defaults-enum-ref": lambda c: "(enum " in c and ("(arr" in c or "(obj" in c),
     "inject-defaults-string-reparsed": lambda c: re.search(r'\(str "(\{\}|\[\]|null|true|false|-?[0-9.eE+-]+)"\)', c) is not None,
-    "variable-default-null-list-wrapped": lambda c: "(some (vnull))" in c,
     "remap-name-collision-upload": lambda c: '"Upload"' in c,
     "unknown-field-echo": lambda c: "unknown_field" in c,
 }
